@@ -373,6 +373,141 @@ fn random_text(rng: &mut Rng) -> (&'static str, String) {
     (["r-ascii", "r-delims", "r-controls", "r-latin1", "r-bmp", "r-astral", "r-mixed"][class as usize], s)
 }
 
+
+// ------------------------------------------------------------------ long texts: block boundaries
+/// block sizes a buffered encoder/decoder might plausibly use (UTF-16 code units / bytes)
+const BLOCKS: [usize; 8] = [64, 128, 255, 256, 257, 512, 1000, 1024];
+/// a case is kept under 9 KB of Coq literal text (Coq parses big literals slowly)
+const MAX_CASE: usize = 9000;
+
+fn rep(c: char, n: usize) -> String {
+    std::iter::repeat(c).take(n).collect()
+}
+
+/// long texts for the api channel: an astral character (surrogate pair) whose HIGH half is UTF-16
+/// code unit k, for every k in a window around every block size (so the pair straddles the
+/// boundary when k = B-1), with an ASCII or a Latin-1 filler; texts made of astral characters only
+/// (every even / every odd boundary is straddled at once); long plain texts with the three
+/// delimiters around the boundary (literal-string path).
+fn long_api_texts(rng: &mut Rng, thorough: bool) -> Vec<(&'static str, String)> {
+    let mut v: Vec<(&'static str, String)> = vec![];
+    let w = if thorough { 8 } else { 3 };
+    for &b in BLOCKS.iter().filter(|b| **b <= 512) {
+        for k in b.saturating_sub(w)..=b + w - 1 {
+            let filler = if b <= 257 && k % 2 == 0 { 'é' } else { 'a' };
+            v.push(("long-astral-at-k", format!("{}\u{1f600} t", rep(filler, k))));
+        }
+        // pairs at two boundaries of the same block size at once, and a lone-looking BMP neighbour
+        if 2 * b <= 520 {
+            v.push(("long-astral-at-k", format!("{}\u{1f600}{}\u{10ffff}\u{ffff}", rep('a', b - 1), rep('a', b - 2))));
+        }
+        for k in [b - 1, b] {
+            v.push(("long-plain-delims", format!("{}(\\){}", rep('a', k), rep('b', 3))));
+        }
+    }
+    for n in [150usize, 260] {
+        v.push(("long-astral-dense", rep('\u{1f600}', n)));                         // pairs at units (0,1),(2,3),…
+        v.push(("long-astral-dense", format!("\u{e9}{}", rep('\u{10000}', n))));    // pairs at units (1,2),(3,4),…
+    }
+    for &n in &[1000usize, 1024, 1100] {
+        v.push(("long-plain", rep('x', n)));
+        v.push(("long-plain-delims", format!("{}({}", rep('a', n - 1), "\\")));
+    }
+    for &b in &[255usize, 256, 257, 512] {
+        // BMP-only non-plain text around the boundary (UTF-16 path without surrogates)
+        v.push(("long-bmp", format!("{}\u{20ac}\u{d7ff}\u{e000}", rep('é', b - 1))));
+    }
+    let n_random = if thorough { 40 } else { 6 };
+    for _ in 0..n_random {
+        // random long mixed text, 300..520 units, astral characters sprinkled at random offsets
+        let target = rng.range(300, 520) as usize;
+        let mut t = String::new();
+        let mut units = 0;
+        while units < target {
+            let c = match rng.below(8) {
+                0 | 1 => char::from_u32(rng.range(0x10000, 0x10ffff) as u32).unwrap(),
+                2 => 'é',
+                3 => char::from_u32(rng.range(0x100, 0xd7ff) as u32).unwrap(),
+                _ => char::from_u32(rng.range(0x20, 0x7e) as u32).unwrap(),
+            };
+            units += c.len_utf16();
+            t.push(c);
+        }
+        v.push(("long-random", t));
+    }
+    v
+}
+
+fn units_payload(units: &[u16]) -> Vec<u8> {
+    let mut v = vec![0xfe, 0xff];
+    for u in units {
+        v.extend_from_slice(&u.to_be_bytes());
+    }
+    v
+}
+
+/// long payloads for the dec channel (BOM + UTF-16BE and single-byte), same idea, all block sizes
+fn long_dec_payloads(rng: &mut Rng, thorough: bool) -> Vec<(&'static str, Vec<u8>)> {
+    let mut v: Vec<(&'static str, Vec<u8>)> = vec![];
+    let w = if thorough { 8 } else { 3 };
+    let a = 0x61u16;
+    for &b in BLOCKS.iter().chain([768usize].iter()) {
+        for k in b.saturating_sub(w)..=b + w - 1 {
+            // surrogate pair with its high half at code unit k
+            let mut u = vec![a; k];
+            u.extend_from_slice(&[0xd83d, 0xde00, 0x7a]);
+            v.push(("long-utf16-pair-at-k", units_payload(&u)));
+        }
+        // lone surrogates at the block end / start: must stay U+FFFD exactly as the model says
+        for pat in [vec![0xd83du16, a], vec![0xde00, a], vec![0xd83d, 0xd83d, 0xde00], vec![0xde00, 0xd83d], vec![0xd83d]] {
+            for k in [b - 1, b] {
+                let mut u = vec![a; k];
+                u.extend_from_slice(&pat);
+                v.push(("long-utf16-lone-at-k", units_payload(&u)));
+            }
+        }
+        // odd trailing byte after a pair that ends exactly at the boundary
+        let mut u = vec![a; b - 2];
+        u.extend_from_slice(&[0xdbff, 0xdfff]);
+        let mut p = units_payload(&u);
+        p.push(0x41);
+        v.push(("long-utf16-odd-tail", p));
+        // single-byte path: distinctive bytes around byte offset b; FE FF in the middle is not a BOM
+        for k in [b - 1, b] {
+            let mut p = vec![b'a'; k];
+            p.extend_from_slice(&[0xe9, 0x80, 0xfe, 0xff, 0x28, 0x5c, 0x29, 0x0d, 0x0a, b'z']);
+            v.push(("long-singlebyte-at-k", p));
+        }
+    }
+    // astral only: every even / every odd boundary straddled, up to 1100 units
+    for n in [275usize, 550] {
+        v.push(("long-utf16-dense", units_payload(&[0xd83du16, 0xde00].repeat(n))));
+        let mut u = vec![0xe9u16];
+        u.extend_from_slice(&[0xd800u16, 0xdc00].repeat(n - 1));
+        v.push(("long-utf16-dense", units_payload(&u)));
+    }
+    // every byte value, cyclically, 1100 bytes, starting at two different phases
+    for phase in [0x20usize, 0xa1] {
+        let p: Vec<u8> = (0..1100).map(|i| (0x20 + (phase - 0x20 + i) % 0xe0) as u8).collect();
+        v.push(("long-singlebyte-cycle", p));
+    }
+    let n_random = if thorough { 60 } else { 8 };
+    for _ in 0..n_random {
+        let n = rng.range(300, 1000) as usize;
+        let mut u: Vec<u16> = Vec::with_capacity(n);
+        while u.len() < n {
+            match rng.below(10) {
+                0 | 1 => u.extend_from_slice(&[rng.range(0xd800, 0xdbff) as u16, rng.range(0xdc00, 0xdfff) as u16]),
+                2 => u.push(rng.range(0xd800, 0xdfff) as u16),
+                3 => u.push(rng.range(0x80, 0xffff) as u16),
+                _ => u.push(rng.range(0x20, 0x7e) as u16),
+            }
+        }
+        v.push(("long-utf16-random", units_payload(&u)));
+    }
+    v
+}
+
 fn push_api(out: &mut Out, class: &str, entry: usize, cfg: u64, text: &str) {
     let o = run_case(entry, cfg, text);
     let coq = format!(
@@ -385,6 +520,11 @@ fn push_api(out: &mut Out, class: &str, entry: usize, cfg: u64, text: &str) {
     let js = json!({"entry": ENTRIES[entry], "cfg": cfg, "text_hex": hex(text.as_bytes()), "text": text,
                     "written_hex": o.written.as_ref().map(|w| hex(w)), "readback": o.readback, "note": o.note, "class": class});
     let nontrivial = !text.bytes().all(|b| matches!(b, 0x09 | 0x0a | 0x20..=0x7e)) || text.contains(['(', ')', '\\']);
+    if coq.len() > MAX_CASE && class.starts_with("long") {
+        eprintln!("c10: case of {} characters skipped ({} {})", coq.len(), ENTRIES[entry], class);
+        out.count("skipped-too-large");
+        return;
+    }
     out.push(coq, js, &format!("{}/{}", ENTRIES[entry], class), nontrivial);
     if o.written.is_none() {
         out.count("refused");
@@ -437,6 +577,24 @@ pub fn run(ctx: &Ctx) {
         }
     }
     out.finish("api");
+
+    // ---------------------------------------------------------------- apilong (small shards: big literals)
+    if replay.is_none() {
+        let mut out = Out::new(ctx, header, "c10_case", "case_code");
+        out.shard_size = 12;
+        let mut rng = Rng::new(ctx.seed ^ 0x10e6);
+        // entry points that never refuse: the ten whole-document ones in rotation, plus the filler on /Ch
+        for (i, (class, text)) in long_api_texts(&mut rng, ctx.thorough()).iter().enumerate() {
+            let e1 = (i + ctx.seed as usize) % 10;
+            let cfg = (i as u64 + ctx.seed) % 3;
+            push_api(&mut out, class, e1, cfg, text);
+            push_api(&mut out, class, 12, cfg, text);
+            if i % 7 == 0 {
+                push_api(&mut out, class, 0, 0, text); // PdfReader::metadata explicitly
+            }
+        }
+        out.finish("apilong");
+    }
 
     // ---------------------------------------------------------------- dec
     let mut out = Out::new(ctx, header, "bytes * option bytes", "dec_code");
@@ -495,4 +653,15 @@ pub fn run(ctx: &Ctx) {
         }
     }
     out.finish("dec");
+
+    // ---------------------------------------------------------------- declong
+    if replay.is_none() {
+        let mut out = Out::new(ctx, header, "bytes * option bytes", "dec_code");
+        out.shard_size = 16;
+        let mut rng = Rng::new(ctx.seed ^ 0xdec10e6);
+        for (class, p) in long_dec_payloads(&mut rng, ctx.thorough()) {
+            push_dec(&mut out, class, &p);
+        }
+        out.finish("declong");
+    }
 }
